@@ -115,12 +115,25 @@ def encCtl (st : St) : String :=
 def inDomain (cfg : Cfg) (ov : Overflow) (ops : List Op) : Bool :=
   1 ≤ cfg.height && (ov != .ellipsis || 3 ≤ cfg.width) && ops.all (Op.applies cfg.kind)
 
+/-- initial renderable: a Status wraps its initial status in the spinner grid -/
+def initOf (cfg : Cfg) (ov : Overflow) (init : String) : St :=
+  let r0 := decStrList init
+  initSt ov (if cfg.kind == .status then statusFrame r0 else r0)
+
+def initFrame (cfg : Cfg) (init : String) : Frame :=
+  let r0 := decStrList init
+  if cfg.kind == .status then statusFrame r0 else r0
+
 def runPerOp (cfg : Cfg) (fails : Nat → Bool) : St → List Op → List String × St
   | st, [] => ([], st)
   | st, op :: rest =>
     let r := step cfg fails st op
     let (l, st') := runPerOp cfg fails r.st rest
     ((encErr r.err ++ ";" ++ encOps r.out) :: l, st')
+
+/-- canonical form of a frame for the kinds that pad (Progress, Status): no trailing spaces, no trailing blank rows -/
+def rstrip (l : Line) : Line := (l.reverse.dropWhile (· == ' ')).reverse
+def trimFrame (f : Frame) : Frame := ((f.map rstrip).reverse.dropWhile (·.isEmpty)).reverse
 
 /-- rows of the tasks table must fit the console width (otherwise Rich wraps: outside the model) -/
 def tableFits (cfg : Cfg) (st : St) : Bool := maxWidth st.renderable ≤ cfg.width
@@ -137,7 +150,7 @@ def handlers : List (String × (List String → String)) := [
       match decCfg cfg, decFaults faults, decOpsL ops with
       | some (cfg, ov), some fails, some ops =>
         if !inDomain cfg ov ops then "unmodelled" else
-        let (l, st) := runPerOp cfg fails (initSt ov (decStrList init)) ops
+        let (l, st) := runPerOp cfg fails (initOf cfg ov init) ops
         "|".intercalate l ++ "#" ++ encCtl st
       | _, _, _ => "unmodelled"
     | _ => "bad-args"),
@@ -146,17 +159,27 @@ def handlers : List (String × (List String → String)) := [
       match decCfg cfg, decFaults faults, decOpsL ops with
       | some (cfg, ov), some fails, some ops =>
         if !inDomain cfg ov ops then "unmodelled" else
-        let (st, out, raised) := runWith cfg fails (initSt ov (decStrList init)) ops (decOptNat raiseAt)
+        let (st, out, raised) := runWith cfg fails (initOf cfg ov init) ops (decOptNat raiseAt)
         encOps out ++ "#" ++ encBool raised ++ "#" ++ encCtl st
       | _, _, _ => "unmodelled"
+    | _ => "bad-args"),
+  ("live_pre_with", fun a => match a with
+    | [cfg, init, faults, pre, ops, raiseAt] =>
+      match decCfg cfg, decFaults faults, decOpsL pre, decOpsL ops with
+      | some (cfg, ov), some fails, some pre, some ops =>
+        if !inDomain cfg ov (pre ++ ops) then "unmodelled" else
+        let (st0, out0, _) := run cfg fails (initOf cfg ov init) pre
+        let (st, out, raised) := runWith cfg fails st0 ops (decOptNat raiseAt)
+        encOps (out0 ++ out) ++ "#" ++ encBool raised ++ "#" ++ encCtl st
+      | _, _, _, _ => "unmodelled"
     | _ => "bad-args"),
   ("live_spec", fun a => match a with
     | [cfg, init, ops] =>
       match decCfg cfg, decOpsL ops with
       | some (cfg, ov), some ops =>
         if !inDomain cfg ov ops then "unmodelled" else
-        let r0 := decStrList init
-        encBool (wf cfg ov r0 ops) ++ ";" ++ encStrList (printed cfg ov r0 ops) ++ ";" ++ encStrList (lastFrame cfg ov r0 ops)
+        let r0 := initFrame cfg init
+        encBool (wf cfg ov r0 ops) ++ ";" ++ encStrList (printed cfg ov r0 ops) ++ ";" ++ encStrList (if cfg.kind == .live then lastFrame cfg ov r0 ops else trimFrame (lastFrame cfg ov r0 ops))
       | _, _ => "unmodelled"
     | _ => "bad-args")
 ]
